@@ -740,3 +740,11 @@ mod tests {
     #[relationship_target(relationship = OwnedBy)]
     struct Owning(Vec<Entity>);
 }
+
+#[cfg(replicon_verif)]
+impl RelatedEntities {
+    /// Returns the graph index currently assigned to an entity (as of the last rebuild).
+    pub(super) fn verif_graph_index(&self, entity: Entity) -> Option<usize> {
+        self.entity_graphs.get(&entity).copied()
+    }
+}
